@@ -34,12 +34,19 @@ def hookaidofile(base, extra=""):
     return extra + ('ingress {\n  listen "127.0.0.1:%d"\n}\npull_api {\n  listen "127.0.0.1:%d"\n  auth token "raw:%s"\n}\n'
             'admin_api {\n  listen "127.0.0.1:%d"\n  auth token "raw:%s"\n}\n'
             'defaults {\n  egress {\n    https_only off\n    dns_rebind_protection off\n  }\n}\n'
-            '/hooks/pull {\n  pull { path /pull/p }\n}\n/hooks/fan {\n%s\n}\n') % (base, base + 1, PTOK, base + 2, ATOK, t)
+            '/hooks/pull {\n  max_body 1kb\n  pull { path /pull/p }\n}\n/hooks/fan {\n%s\n}\n') % (base, base + 1, PTOK, base + 2, ATOK, t)
 
 
 def body_for(marker):
-    core = ("%s|" % marker).encode() + bytes((i * 37 + len(marker)) % 256 for i in range(200))
+    # markers starting with "B" carry a body of about 3 KB: more than the pull route's max_body (1 KB)
+    n = 3000 if marker.startswith("B") else 200
+    core = ("%s|" % marker).encode() + bytes((i * 37 + len(marker)) % 256 for i in range(n))
     return core + hashlib.sha256(core).hexdigest().encode()
+
+
+def chunked(marker):
+    """markers starting with "B" or "c" are sent without a Content-Length (Transfer-Encoding: chunked, several chunks)"""
+    return marker.startswith(("B", "c"))
 
 
 def body_ok(b):
@@ -54,7 +61,11 @@ def gen_workload(rng):
     for i in range(n):
         r = rng.random()
         ctr += 1
-        if r < 0.22:
+        if r < 0.06:
+            # a streamed body (no Content-Length): within the route's max_body, or three times over it (answered 413, nothing stored;
+            # whatever is acknowledged with 202 must be stored whole)
+            steps.append({"op": "ingress", "route": "pull", "marker": "%s%d" % (rng.choice(["B", "c"]), ctr)})
+        elif r < 0.22:
             steps.append({"op": "ingress", "route": "pull", "marker": "m%d" % ctr})
         elif r < 0.40:
             steps.append({"op": "ingress", "route": "fan", "marker": "m%d" % ctr})
@@ -122,10 +133,14 @@ class Proc:
         self.log.close()
 
 
-def http_req(port, method, path, body, headers, timeout=3.0):
+def http_req(port, method, path, body, headers, timeout=3.0, stream=False):
     c = http.client.HTTPConnection("127.0.0.1", port, timeout=timeout)
     try:
-        c.request(method, path, body=body, headers=headers or {})
+        if stream:
+            parts = [body[i:i + 700] for i in range(0, len(body), 700)] or [b""]
+            c.request(method, path, body=iter(parts), headers=dict(headers or {}, **{"Transfer-Encoding": "chunked"}), encode_chunked=True)
+        else:
+            c.request(method, path, body=body, headers=headers or {})
         r = c.getresponse()
         # the acknowledgement is the status line: a body that never completes (process killed) does not take it back
         try:
@@ -142,7 +157,7 @@ def do_step(base, st, deq_results):
     try:
         if st["op"] == "ingress":
             s, d = http_req(base, "POST", "/hooks/" + st["route"], body_for(st["marker"]),
-                            {"Content-Type": "application/octet-stream", "X-Marker": st["marker"], "Cookie": "secret=1"})
+                            {"Content-Type": "application/octet-stream", "X-Marker": st["marker"], "Cookie": "secret=1"}, stream=chunked(st["marker"]))
             return s, None
         if st["op"] == "publish":
             items = [{"id": it["id"], "route": "/hooks/pull", "payload_b64": base64.b64encode(body_for(it["marker"])).decode(),
@@ -610,6 +625,10 @@ def main(ctx, replay):
                       {"op": "stalebatch", "kind": "ack"}, {"op": "ingress", "route": "pull", "marker": "s2"},
                       {"op": "stalebatch", "kind": "nack"}, {"op": "publish", "items": [{"id": "pub-s-0", "marker": "s3_0"}, {"id": "pub-s-1", "marker": "s3_1"}]},
                       {"op": "ingress", "route": "fan", "marker": "s4"}, {"op": "ack", "ref": [0, 0]}, {"op": "ingress", "route": "pull", "marker": "s5"}])
+    # a fixed workload: streamed bodies (no Content-Length) within and over the route's max_body between ordinary traffic
+    workloads.append([{"op": "ingress", "route": "pull", "marker": "c1"}, {"op": "ingress", "route": "pull", "marker": "B2"},
+                      {"op": "ingress", "route": "pull", "marker": "t3"}, {"op": "dequeue", "batch": 3}, {"op": "ingress", "route": "pull", "marker": "B4"},
+                      {"op": "ack", "ref": [0, 0]}, {"op": "ingress", "route": "pull", "marker": "c5"}])
     port0 = 12000 + (os.getpid() % 18) * 1000       # below the ephemeral port range
     evaluations = 0
     nontrivial = set()
